@@ -347,7 +347,9 @@ def rule_limits(prog, res):
         if (b, a, t) in counts:
             continue
         v = a[1]
-        if any(x.op == "call" and x.args[0] == "<core::str::Bytes as core::iter::Iterator>::next" for x in subterms(v)) and is_const(a[2]) and const_val(a[2]) == 8:
+        exact = v.op == "field" and v.args[1] == 0 and v.args[0].op == "downcast" and v.args[0].args[1] == 1 and v.args[0].args[0].op == "call" \
+            and v.args[0].args[0].args[0] == "<core::str::Bytes as core::iter::Iterator>::next"
+        if exact and is_const(a[2]) and const_val(a[2]) == 8:
             okb = any(b in body for body in loops.values())
     res.ob("X-lim", "1029 encode | every byte of the text is written with 8 bits", okb, "", f.loc)
     errs = set()
